@@ -24,6 +24,13 @@ class Fail(Exception):
     pass
 
 
+def write_if_changed(path, text):
+    if os.path.exists(path) and open(path).read() == text:
+        return
+    with open(path, "w") as f:
+        f.write(text)
+
+
 def is_name(n, s): return isinstance(n, ast.Name) and n.id == s
 def is_const(n, v): return isinstance(n, ast.Constant) and n.value == v and type(n.value) is type(v)
 
@@ -131,11 +138,10 @@ def main():
     if not (len(d) == 2 and is_const(d[0], "snapshot") and is_const(d[1], 1)): raise Fail("defaults of getSimulation changed")
     body = block(fn.body)
     os.makedirs(os.path.dirname(OUT), exist_ok=True)
-    with open(OUT, "w") as f:
-        f.write("(* GENERATED by tools/translate_c09_getsim.py from rebound/simulationarchive.py (Simulationarchive.getSimulation). Do not edit. *)\n"
-                "From Coq Require Import List.\nFrom RV Require Import C09.GetSim.\nImport ListNotations.\n\n"
-                "Definition getsim_default_keep : bool := true.\n"
-                "Definition getsim_body : list gstmt :=\n  [%s].\n" % ";\n   ".join(body))
+    write_if_changed(OUT, "(* GENERATED by tools/translate_c09_getsim.py from rebound/simulationarchive.py (Simulationarchive.getSimulation). Do not edit. *)\n"
+                     "From Coq Require Import List.\nFrom RV Require Import C09.GetSim.\nImport ListNotations.\n\n"
+                     "Definition getsim_default_keep : bool := true.\n"
+                     "Definition getsim_body : list gstmt :=\n  [%s].\n" % ";\n   ".join(body))
 
 
 if __name__ == "__main__":
